@@ -28,6 +28,7 @@ func runC17(c *Ctx) {
 	defer c11ComparatorKeys(c, "C17-R5")
 	defer c11NestedDetailsSorted(c, "C17-R5")
 	defer c17ListFilters(c)
+	defer c17CommentTextAndPlace(c)
 	defer c17ErrorsEndTheRun(c, "C17-R4")
 	defer c17FirstNoteOnly(c)
 
@@ -755,4 +756,103 @@ func c17ErrorsEndTheRun(c *Ctx, R string) {
 		})
 	}
 	c.Check(n >= 20, R, "error branches in internal/reporter enumerated", token.NoPos, itoa(n), "fewer than 20 `err != nil` branches found")
+}
+
+// c17CommentTextAndPlace: two small facts every platform's recognition of its
+// own comments rests on. (a) The text of a comment is posted and compared as a
+// whole string: nothing in internal/reporter byte-slices a comment body
+// (`text[:n]`), which can cut a multi-byte character in half — the platform
+// stores the repaired text, the next run compares it with the broken one, never
+// recognises its comment and posts it again. (b) A GitLab comment is attached to
+// the diff whose NEW path is the comment's path, nothing else: attached to a
+// diff found by its old path the discussion comes back under another path and
+// is deleted and re-created on every run.
+func c17CommentTextAndPlace(c *Ctx) {
+	rep := c.P.Pkg("internal/reporter")
+	if rep == nil {
+		return
+	}
+	info := rep.TypesInfo
+	// (a) text-carrying objects: the text fields, and parameters that are handed one
+	carriers := map[types.Object]bool{}
+	isTextField := func(e ast.Expr) bool {
+		return fieldSel(info, e, "internal/reporter.PendingComment", "text") || fieldSel(info, e, "internal/reporter.ExistingComment", "text")
+	}
+	for round := 0; round < 2; round++ {
+		for _, fi := range c.P.AllFuncs() {
+			if fi.Pkg != rep || fi.Decl.Body == nil || c.P.IsTestFile(fi.Decl.Pos()) {
+				continue
+			}
+			ast.Inspect(fi.Decl.Body, func(nd ast.Node) bool {
+				call, ok := nd.(*ast.CallExpr)
+				if !ok {
+					return true
+				}
+				callee := c.P.FuncOf(Callee(info, call))
+				if callee == nil || callee.Pkg != rep {
+					return true
+				}
+				sig := callee.Obj.Type().(*types.Signature)
+				for i, a := range call.Args {
+					if i < sig.Params().Len() && (isTextField(a) || carriers[objOf(info, a)]) {
+						carriers[sig.Params().At(i)] = true
+					}
+				}
+				return true
+			})
+		}
+	}
+	n, bad := 0, ""
+	badPos := token.NoPos
+	for _, fi := range c.P.AllFuncs() {
+		if fi.Pkg != rep || fi.Decl.Body == nil || c.P.IsTestFile(fi.Decl.Pos()) {
+			continue
+		}
+		ast.Inspect(fi.Decl.Body, func(nd ast.Node) bool {
+			se, ok := nd.(*ast.SliceExpr)
+			if !ok {
+				return true
+			}
+			if t := info.TypeOf(se.X); t == nil || t.Underlying().String() != "string" {
+				return true
+			}
+			if isTextField(se.X) || carriers[objOf(info, se.X)] {
+				n++
+				bad, badPos = "`"+exprStr(se)+"` in "+shortFuncName(fi.Name), se.Pos()
+			}
+			return true
+		})
+	}
+	c.Check(bad == "", "C17-R3", "comment bodies are never byte-sliced", badPos, "0 slices of a comment text",
+		bad+" cuts a comment body at a byte offset: a multi-byte character can be split, the platform stores a repaired text, and the comment is never recognised as already posted")
+	// (b)
+	if gd := c.P.Func("internal/reporter.getDiffForPath"); gd != nil {
+		pm := parentMap(gd.Decl.Body)
+		okB, nRet := true, 0
+		got := ""
+		inspectNoLit(gd.Decl.Body, func(nd ast.Node) bool {
+			r, isRet := nd.(*ast.ReturnStmt)
+			if !isRet || len(r.Results) != 1 || isNilIdent(info, r.Results[0]) {
+				return true
+			}
+			nRet++
+			onlyNew := false
+			for _, g := range lexicalGuards(pm, r, gd.Decl.Body) {
+				if be, isBin := ast.Unparen(g.E).(*ast.BinaryExpr); isBin && be.Op == token.EQL && g.Truth {
+					if sel, isSel := ast.Unparen(be.X).(*ast.SelectorExpr); isSel && sel.Sel.Name == "NewPath" {
+						onlyNew = true
+					}
+				}
+			}
+			if !onlyNew {
+				okB = false
+				if g := lexicalGuards(pm, r, gd.Decl.Body); len(g) > 0 {
+					got = exprStr(g[0].E)
+				}
+			}
+			return true
+		})
+		c.Check(okB && nRet >= 1, "C17-R3", "getDiffForPath:a comment goes to the diff with that NEW path", gd.Decl.Pos(), "NewPath == path",
+			"the diff for a comment is chosen under `"+got+"`: a file that reuses the old name of a renamed file gets its comment attached to the renamed file, the discussion is listed back under the other path, never matches, and is deleted and re-created on every run")
+	}
 }
